@@ -153,7 +153,7 @@ def breadth_first_search(node: 'Node', consumer: Callable[['Node'], bool]):
     queue = [node]
 
     while len(queue) != 0:
-        pop = queue.pop()
+        pop = queue.pop(0)
         can_continue = consumer(pop)
 
         if can_continue:
